@@ -9,6 +9,7 @@ import soupsieve as sv
 import driver
 import enc
 import framework
+import gen
 import matchcorr
 
 PID = 'C02'
@@ -22,7 +23,15 @@ RULE = ('sibling sequences over {E=li, X=other element, T=text, C=comment} (all 
         '(terms over all four pseudo-classes, keyword forms, even/odd, `of S`, `:not(...)`-wrapped terms, optional type prefix; B also drawn from '
         '[-(2*nodes+4), 2*nodes+4] so that terms start below 1 and above the last sibling in the same compound), also as selector lists and inside '
         '`:is(..., ...)` followed by a further term; expected set = conjunction / union of the per-term oracle; redrawn up to 8 times towards a '
-        'non-empty expected answer; keyword equivalences are also evaluated with another positional term before or after. Non-trivial = at least one element of the sequence matches and at least one does not.')
+        'non-empty expected answer; keyword equivalences are also evaluated with another positional term before or after. Whole-document sweep: random '
+        'documents to depth 4 whose element names include those the matcher treats specially when it walks the tree (iframe, html, body, template, '
+        'form, svg) next to li/x/p/..., with text, comment, CDATA and processing-instruction nodes between siblings, as HTML built through the bs4 API '
+        '(with and without the XHTML namespace), HTML parsed by html.parser / lxml / html5lib, XHTML and plain XML (API-built and parsed, some elements '
+        'in a second namespace); selectors = optional `P >` / `P ` (P in iframe, ul, div, html, body, *, :not(iframe)) + optional type + 1-3 positional '
+        'terms (keywords, even/odd, bare integers, An+B, `of S` with S in .s, li, :not(.s), a list, *, x.s; :not()-wrapped), also lists; EVERY element of '
+        'the document is decided by the An+B definition against the element children of its own parent (bs4 only) for `select` from the document, '
+        '`select` from a random scope element, `match` on every element, and again after a random subtree was detached (a parentless root is 1 of 1); '
+        'a sample also goes through the Lean matcher model. Non-trivial = at least one element of the sequence matches and at least one does not.')
 
 NAMES = [(':nth-child', False, False), (':nth-last-child', True, False),
          (':nth-of-type', False, True), (':nth-last-of-type', True, True)]
@@ -199,6 +208,266 @@ def compound_sweep(chk, rng, seqs, span, quick, py_bad, doc_cases):
     return evaluations, nontrivial
 
 
+# --- whole documents: the sibling list sits under every kind of parent ----------------------------------------------
+# The sweeps above always hang the sibling sequence under one `ul` (or directly under the document object).  The
+# property speaks of "the element's position among its element siblings" whatever the parent is, so here whole random
+# documents are generated - HTML built through the API, HTML parsed by the three HTML parsers, XHTML and plain XML
+# (API-built and parsed) - whose element names include the ones the matcher treats specially while walking the tree
+# (`iframe`, `html`, `body`, `template`, `form`, `svg`), nested to depth 4, with text / comment / CDATA / processing
+# instruction nodes between the siblings.  Every element of the document is then decided by the An+B definition with
+# respect to ITS parent's element children (bs4 only), for `select` from the document, `select` from a random scope
+# element, `match` on every element, and once more after a random subtree has been detached (its root has no parent:
+# position 1 of 1).
+TREE_NAMES = ['li', 'li', 'li', 'x', 'x', 'p', 'span', 'div', 'ul', 'iframe', 'iframe', 'iframe', 'html', 'body',
+              'template', 'form', 'svg', 'section']
+TREE_CONTAINERS = ('iframe', 'ul', 'div', 'html', 'body', 'template', 'form', 'svg', 'section')
+TREE_MODES = [('html', 'api'), ('html', 'api'), ('html5', 'api'), ('html', 'html.parser'), ('html', 'html.parser'),
+              ('html', 'html.parser'), ('html', 'lxml'), ('html', 'html5lib'), ('xhtml', 'api'), ('xhtml', 'xml'),
+              ('xhtml', 'xml'), ('xml', 'api'), ('xml', 'xml')]
+
+
+def gen_tree_nodes(r, kind, depth, budget, parse):
+    """A list of sibling nodes in the tuple format of harness/gen.py: ('e', name, prefix, ns, attrs, kids) | (kind, text)."""
+    out = []
+    n = r.choice([1, 2, 3]) if depth == 0 else r.choice([0, 1, 2, 3, 3, 4, 5, 6, 8])
+    for _ in range(n):
+        u = r.random()
+        if u < 0.62 and budget[0] > 0:
+            budget[0] -= 1
+            name = r.choice(TREE_NAMES)
+            ns = None
+            attrs = []
+            if kind in ('xhtml', 'xml') and r.random() < 0.12:      # same local names in another namespace
+                ns = r.choice([NS_B, NS_A, gen.XHTML])
+                if parse:
+                    attrs.append(('xmlns', ns))
+            cls = r.choice([None, None, 's', 's', 's t', 'u'])
+            if cls is not None:
+                attrs.append(('class', cls.split() if kind in ('html', 'html5') and not parse else cls))
+            deeper = depth < 3 and r.random() < (0.8 if name in TREE_CONTAINERS else 0.3)
+            kids = gen_tree_nodes(r, kind, depth + 1, budget, parse) if deeper else []
+            out.append(('e', name, None, ns, attrs, kids))
+        elif u < 0.80:
+            out.append(('t', r.choice(['t', ' ', '\n', 'text '])))
+        elif u < 0.92:
+            out.append(('c', 'c'))
+        elif u < 0.96:
+            out.append(('cd', 'cd'))
+        else:
+            out.append(('pi', 'pi x'))
+    return out
+
+
+
+def gen_tree_case(r):
+    """{'kind', 'tree'} (API-built) or {'markup', 'parser'} (parsed): the document part of a case."""
+    kind, how = r.choice(TREE_MODES)
+    parse = how != 'api'
+    budget = [r.randint(6, 30)]
+    nodes = gen_tree_nodes(r, kind, 1 if kind != 'html' or r.random() < 0.6 else 0, budget, parse)
+    if kind in ('xhtml', 'xml') or r.random() < 0.6:
+        # a single root element; sometimes the usual html/body wrapper
+        if kind == 'xml':
+            root = ('e', r.choice(['r', 'html', 'iframe', 'ul']), None, None, [('xmlns', NS_A)] if parse and r.random() < 0.3 else [], nodes)
+        else:
+            if r.random() < 0.5:
+                nodes = [('e', 'body', None, None, [], nodes)]
+            root = ('e', 'html', None, None, [('xmlns', gen.XHTML)] if parse and kind == 'xhtml' else [], nodes)
+        nodes = [root]
+    if not parse:
+        return {'kind': kind, 'tree': nodes}
+    markup = gen.to_markup(nodes, xml=(how == 'xml'))
+    if how == 'xml':
+        markup = '<?xml version="1.0"?>' + markup
+    return {'markup': markup, 'parser': how}
+
+
+def t_has(e, c):
+    v = e.get('class')
+    if v is None:
+        return False
+    if isinstance(v, str):
+        v = v.split()
+    return c in v
+
+
+def t_real_parent(e):
+    p = e.parent
+    return p if isinstance(p, bs4.Tag) and not isinstance(p, bs4.BeautifulSoup) else None
+
+
+def tree_oracle(e, a, b, last, of_type, s_pred):
+    """`exists n >= 0: a*n + b == position of e among its (filtered) element siblings`, from bs4 alone."""
+    if s_pred is not None and not s_pred(e):
+        return False
+    sibs = [e] if e.parent is None else [x for x in e.parent.contents if isinstance(x, bs4.Tag)]
+    if of_type:
+        sibs = [x for x in sibs if (x.name, x.namespace or '') == (e.name, e.namespace or '')]
+    if s_pred is not None:
+        sibs = [x for x in sibs if s_pred(x)]
+    if last:
+        sibs = sibs[::-1]
+    pos = [i for i, x in enumerate(sibs) if x is e][0] + 1
+    if a == 0:
+        return b == pos
+    n, rem = divmod(pos - b, a)
+    return rem == 0 and n >= 0
+
+
+S_FILTERS = [(' of .s', lambda e: t_has(e, 's')), (' of li', lambda e: e.name == 'li'),
+             (' of :not(.s)', lambda e: not t_has(e, 's')), (' of li, .s', lambda e: e.name == 'li' or t_has(e, 's')),
+             (' of *', lambda e: True), (' of x.s', lambda e: e.name == 'x' and t_has(e, 's')), (' of .s', lambda e: t_has(e, 's'))]
+TREE_RELS = [None] * 5 + [('iframe', '>'), ('iframe', '>'), ('iframe', ' '), ('ul', '>'), ('div', '>'), ('*', '>'),
+                          ('html', '>'), ('body', ' '), (':not(iframe)', '>')]
+
+
+def tree_term(r, span):
+    u = r.random()
+    if u < 0.15:
+        text, parts = r.choice(KEYWORD_TERMS)
+        parts = [p + (None,) for p in parts]
+    else:
+        name, last, of_type = r.choice(NAMES)
+        if u < 0.22:
+            word, a, b = r.choice([('even', 2, 0), ('odd', 2, 1), ('EVEN', 2, 0), ('Odd', 2, 1)])
+            text, parts = f'{name}({word})', [(a, b, last, of_type, None)]
+        else:
+            a = r.choice([-1, 1, -1, 1, -2, 2, 3, 0, 0]) if r.random() < 0.8 else r.randint(-span, span)
+            b = r.randint(-3, 6) if r.random() < 0.75 else r.randint(-12, 12)
+            s = r.choice(S_FILTERS) if (not of_type and r.random() < 0.2) else None
+            arg = str(b) if (a == 0 and r.random() < 0.6) else anb_text(a, b, r)
+            text, parts = f'{name}({arg}{s[0] if s else ""})', [(a, b, last, of_type, s[1] if s else None)]
+    neg = r.random() < 0.1
+    return (f':not({text})' if neg else text), parts, neg
+
+
+def tree_compound(r, span):
+    terms = [tree_term(r, span) for _ in range(r.choice([1, 1, 1, 2, 2, 3]))]
+    prefix = r.choice(['', '', '', '', '*', 'li', 'x', 'p', 'iframe', 'html'])
+    rel = r.choice(TREE_RELS)
+    text = prefix + ''.join(t[0] for t in terms)
+    if rel:
+        text = rel[0] + (' > ' if rel[1] == '>' else ' ') + text
+
+    def left(p):
+        return p is not None and (rel[0] == '*' or (p.name != 'iframe' if rel[0] == ':not(iframe)' else p.name == rel[0]))
+
+    def pred(e):
+        if prefix not in ('', '*') and e.name != prefix:
+            return False
+        if rel:
+            p = t_real_parent(e)
+            if rel[1] == '>':
+                if not left(p):
+                    return False
+            else:
+                while p is not None and not left(p):
+                    p = t_real_parent(p)
+                if p is None:
+                    return False
+        return all(all(tree_oracle(e, *part) for part in parts) != neg for _, parts, neg in terms)
+    return text, pred
+
+
+def tree_selector(r, span):
+    text, pred = tree_compound(r, span)
+    if r.random() < 0.1:
+        text2, pred2 = tree_compound(r, span)
+        return text + r.choice([',', ', ']) + text2, (lambda e: pred(e) or pred2(e))
+    return text, pred
+
+
+def tree_elements(top):
+    out = [top] if not isinstance(top, bs4.BeautifulSoup) else []
+    out.extend(top.find_all(True))
+    return out
+
+
+def tree_call(case, top):
+    """Run the recorded library call of a whole-document case on `top`; element paths in the order returned."""
+    if case['call'] == 'select':
+        return [enc.path_of(e) for e in sv.select(case['selector'], enc.node_at(top, case['scope']))]
+    return [enc.path_of(e) for e in tree_elements(top) if sv.match(case['selector'], e)]
+
+
+def tree_materialise(case):
+    top = matchcorr.materialise(case)
+    if case.get('detach') is not None:
+        top = enc.node_at(top, case['detach']).extract()
+    return top
+
+
+def tree_sweep(chk, rng, span, quick, py_bad, model_lines):
+    n_docs = 400 if quick else 4000
+    per_doc = 8 if quick else 14
+    evaluations = nontrivial = 0
+    stats = {'documents': 0, 'elements': 0, 'parents_with_2+_element_children': 0, 'iframe_parents_with_2+_element_children_html': 0,
+             'elements_under_iframe_ancestor': 0, 'detached_subtrees': 0, 'scoped_selects': 0, 'match_calls': 0, 'by_mode': {}}
+
+    def evaluate(doc, top, detach, sel, pred, call, scope):
+        nonlocal evaluations, nontrivial
+        case = dict(doc, whole_document=True, selector=sel, call=call, scope=enc.path_of(scope), detach=detach)
+        pool = tree_elements(top) if call == 'match' else scope.find_all(True)
+        exp = [enc.path_of(e) for e in pool if pred(e)]
+        got = tree_call(case, top)
+        evaluations += 1
+        if 0 < len(exp) < len(pool):
+            nontrivial += 1
+        if call == 'match':
+            stats['match_calls'] += len(pool)
+        if got != exp:
+            py_bad.append(dict(case, py=got, expected=exp))
+
+    for _ in range(n_docs):
+        doc = gen_tree_case(rng)
+        top = matchcorr.materialise(doc)
+        els = tree_elements(top)
+        if len(els) < 2:
+            continue
+        mode = doc.get('parser') or ('api-' + doc['kind'])
+        stats['by_mode'][mode] = stats['by_mode'].get(mode, 0) + 1
+        stats['documents'] += 1
+        stats['elements'] += len(els)
+        html_kind = not top.is_xml or (els[0].namespace == gen.XHTML)
+        for e in els:
+            k = sum(1 for c in e.contents if isinstance(c, bs4.Tag))
+            if k >= 2:
+                stats['parents_with_2+_element_children'] += 1
+                if e.name == 'iframe' and html_kind and (not top.is_xml or e.namespace == gen.XHTML):
+                    stats['iframe_parents_with_2+_element_children_html'] += 1
+            if any(p.name == 'iframe' for p in e.parents):
+                stats['elements_under_iframe_ancestor'] += 1
+        for j in range(per_doc):
+            sel, pred = tree_selector(rng, span)
+            for _try in range(6):          # towards selectors that select something here
+                if any(pred(e) for e in els) or rng.random() < 0.15:
+                    break
+                sel, pred = tree_selector(rng, span)
+            evaluate(doc, top, None, sel, pred, 'select', top)
+            u = rng.random()
+            if u < 0.3:
+                evaluate(doc, top, None, sel, pred, 'match', top)
+            elif u < 0.6:
+                stats['scoped_selects'] += 1
+                evaluate(doc, top, None, sel, pred, 'select', rng.choice(els))
+            if model_lines is not None and rng.random() < (0.04 if quick else 0.01):
+                c = {'selector': sel, 'ns': None, 'queries': [('select', [], 0)]}
+                model_lines.append((dict(doc, whole_document=True, selector=sel), matchcorr.lean_line(c, top, sv.compile(sel)),
+                                    matchcorr.lean_line_e2e(c, top), [[enc.path_of(e) for e in sv.select(sel, top)]]))
+        # a subtree cut out of the document: its root has no parent at all
+        cands = [e for e in els if e.parent is not None and e.find(True) is not None] or els
+        victim = rng.choice(cands)
+        detach = enc.path_of(victim)
+        sub = victim.extract()
+        stats['detached_subtrees'] += 1
+        for j in range(3):
+            sel, pred = tree_selector(rng, span)
+            evaluate(doc, sub, detach, sel, pred, 'match', sub)
+            evaluate(doc, sub, detach, sel, pred, 'select', sub)
+    chk.coverage['whole_documents'] = stats
+    return evaluations, nontrivial
+
+
 def run(chk):
     proof_ok = framework.lean_pipeline(chk, SOURCES)
     driver_ok = proof_ok or chk.build(['svdriver'])[0]
@@ -269,6 +538,11 @@ def run(chk):
     ev2, nt2 = compound_sweep(chk, rng, seqs, span, quick, py_bad, doc_cases)
     evaluations += ev2
     nontrivial += nt2
+    # whole documents: every kind of parent (iframe, html, template, ...), every document kind, detached subtrees
+    tree_model = [] if driver_ok else None
+    ev3, nt3 = tree_sweep(chk, rng, span, quick, py_bad, tree_model)
+    evaluations += ev3
+    nontrivial += nt3
     # keyword forms coincide with An+B instances
     kw = [(':first-child', ':nth-child(1)'), (':last-child', ':nth-last-child(1)'), (':first-of-type', ':nth-of-type(1)'),
           (':last-of-type', ':nth-last-of-type(1)'), (':only-child', ':nth-child(1):nth-last-child(1)'),
@@ -315,10 +589,15 @@ def run(chk):
             ir, e2e = enc.parse_sx(resp2[2 * i]), enc.parse_sx(resp2[2 * i + 1])
             if ir != py or e2e != [0, py]:
                 corr_bad.append({'case': c, 'py': py, 'model': ir, 'model_end_to_end': e2e})
+        resp3 = driver.run([l for _, l1, l2, _ in tree_model for l in (l1, l2)])
+        for i, (c, _l1, _l2, py) in enumerate(tree_model):
+            ir, e2e = enc.parse_sx(resp3[2 * i]), enc.parse_sx(resp3[2 * i + 1])
+            if ir != py or e2e != [0, py]:
+                corr_bad.append({'case': c, 'py': py, 'model': ir, 'model_end_to_end': e2e})
     chk.samples = [{'kinds': i[0], 'selector': i[1], 'element': i[2], 'matches': i[3]} for i in line_info[:6]]
     chk.coverage.update({'sibling_sequences': len(seqs), 'py_vs_oracle_mismatches': len(py_bad),
                          'model_matchOne_requests': len(lines), 'model_vs_oracle_mismatches': len(model_bad),
-                         'py_vs_model_documents': len(doc_cases), 'py_vs_model_mismatches': len(corr_bad)})
+                         'py_vs_model_documents': len(doc_cases) + len(tree_model or []), 'py_vs_model_mismatches': len(corr_bad)})
     for i, bad in enumerate(py_bad[:5]):
         chk.violation(f'py{i}', {'what': 'PY select differs from "exists n>=0: A*n+B = position"', **bad}, concrete=True)
     for i, bad in enumerate(corr_bad[:3]):
@@ -337,6 +616,13 @@ def run(chk):
 
 def replay(chk, path):
     data = json.load(open(path))
+    if data.get('whole_document'):
+        got = tree_call(data, tree_materialise(data))
+        print(json.dumps({'py': got, 'expected': data.get('expected')}))
+        if 'expected' in data and got != data['expected']:
+            print(f'VIOLATION property={PID} replay={path}')
+            return 1
+        return 0
     soup, holder = build(tuple(data['kinds']), data.get('top_level', False), nsmode=data.get('nsmode', False))
     got = [enc.path_of(e) for e in sv.select(data['selector'], holder, NSMAP if data.get('nsmode') else None)]
     print(json.dumps({'py': got, 'expected': data.get('expected')}))
